@@ -368,6 +368,7 @@ pub fn run(tier: Tier) -> i32 {
         }
     }
     rep.set("rule", json!("First endpoint A (rect, ellipse, reversed line, group; box 40,40-60,50) and a second rect B in 26 placements (8 sectors x near/far, overlapping, touching right/below, identical, nested, bigger, partially offset east/south) x endpoint specifications {#el, #el@loc for 9 locations and 9 edge offsets (abs, negative, percent), two literal points} for start and end x kind {line, line edge-type h, line edge-type v, polyline, polyline corner-offset 2 / 25% / 6}. Invariants: named location => endpoint exactly that point of the box; unnamed => endpoint is a candidate location (edge mid-points, plus corners for straight lines) and no candidate pair is strictly closer; literal verbatim; h/v => axis-parallel, on facing edges at minimal gap, through the middle of the overlap when the boxes overlap on the other axis; corner routes between two edges => every segment axis-parallel, first/last non-degenerate segment perpendicular to its edge; start/end/edge-type/corner-offset absent. Non-trivial = Ok with observable geometry and all invariants satisfied. Also: 2 placements with an edge mid-point of B exactly in line with one of A's (degenerate L routes), the first / last DRAWN segment (zero-length stubs skipped) judged for perpendicularity; explicit geometry (x1, y2, points, xy1, xy2, x, cxy) written on 4 connector kinds must not change the connector."));
+    rep.set("also_later", json!("Rounds 3-5 added: dx / dy / dxy in the explicit-geometry leg; pinned cases for a literal end point under h / v, edge-type=\"corner\" written out, a reference inside a translated group (open)."));
     rep.set("also", json!("Also: a <use> as the first endpoint element; for polylines one of whose ends has no edge (literal point, corner, centre) the segments must still be axis-parallel."));
     let st = run_space(cases.len(), |i| check(&cases[i], &places));
     rep.sample(json!({"doc": document(&cases[cases.len() / 2], &places)}));
